@@ -296,7 +296,7 @@ def check(prog: Program, res: Result, tier: str) -> None:
             if x in allowed:
                 continue
             xs = _parse(x[len("exit when "):]) if x.startswith("exit when ") else frozenset()
-            if xs and any(G.contradicts(a, b) for a in xs for b in want):
+            if xs and (any(G.contradicts(a, b) for a in xs for b in want) or not G._consistent(frozenset(xs | want))):
                 continue
             if xs and covered(xs, allowed_sets):
                 continue
